@@ -12,11 +12,11 @@ def mkTable : HashMap String (Rd String) :=
 
 def step (tbl : HashMap String (Rd String)) (line : String) : String :=
   match (line.trimAscii.toString.splitOn " ").filter (· ≠ "") with
-  | op :: _kind :: toks =>
+  | op :: kind :: toks =>
     match tbl[op]? with
     | none => "NOOP"
     | some r =>
-      match (r.run toks) with
+      match (r.run (kind :: toks)) with
       | .ok (s, _) => s
       | .error e => "BAD:" ++ e
   | _ => "BAD"
